@@ -18,7 +18,7 @@ ASSUMPTIONS = [
     "texts come from a vocabulary on which the shipped analyzers equal str.split() (asserted at start)",
 ]
 SHARDS = {"quick": 6, "thorough": 16}
-BUDGET_S = {"quick": 75, "thorough": 600}
+BUDGET_S = {"quick": 120, "thorough": 600}
 FLOORS = {"c01.queries": 1500, "c01.nontrivial": 500, "c01.path_checks": 10000, "c01.multiseg_with_deletions": 40,
           "c01.stutter_phrase_queries": 300}
 
